@@ -13,5 +13,5 @@ pub fn vfs_create_dir(p: &PathBuf) -> (r: std::io::Result<()>) { unimplemented!(
 /// fs::canonicalize of the directory named by the user: its canonical form; that directory IS the output directory
 #[verifier::external_body]
 pub fn vfs_canonicalize_outdir(p: &PathBuf) -> (r: std::io::Result<PathBuf>)
-    ensures r is Ok ==> r->Ok_0@ == canon(p@) && is_output_dir(r->Ok_0@),
+    ensures r is Ok ==> r->Ok_0@ == canon(p@) && is_output_dir(r->Ok_0@) && r->Ok_0.is_abs(),
 { unimplemented!() }
